@@ -1428,7 +1428,7 @@ func c01NewSys(t *testing.T, rec *vRecorder, cfg string, principalAPI bool) *c01
 			set[c] = struct{}{}
 			ids = append(ids, c01ChanID(c))
 		}
-		if principalAPI || named { // (in a named collection the users are always created through the admin API)
+		if principalAPI {
 			// the admin API path: allocates a sequence for the principal document, grants at that sequence
 			pw := "letmein"
 			pc := &auth.PrincipalConfig{Name: &name, Password: &pw, ExplicitChannels: set}
@@ -1440,7 +1440,17 @@ func c01NewSys(t *testing.T, rec *vRecorder, cfg string, principalAPI bool) *c01
 				t.Fatalf("UpdatePrincipal: %v", err)
 			}
 		} else {
-			u, err := a.NewUser(name, "letmein", set)
+			var u auth.User
+			var err error
+			if named {
+				// collection access of a named collection; a NON-ZERO invalidation sequence makes the next load recompute the
+				// channel set (0 means "not invalidated": the set computed by NewUser, '!' only, would stay)
+				if u, err = a.NewUser(name, "letmein", nil); err == nil {
+					u.SetCollectionExplicitChannels(col.ScopeName, col.Name, channels.AtSequence(set, 1), 1)
+				}
+			} else {
+				u, err = a.NewUser(name, "letmein", set)
+			}
 			if err != nil {
 				t.Fatalf("NewUser: %v", err)
 			}
@@ -1769,7 +1779,7 @@ func (s *c01Sys) run(q c01Req) ([]c01Row, bool) {
 		}
 		rows = append(rows, s.projectRow(e))
 	}
-	return s.normalizeRebuiltDeletion(q.String(), rows), ok
+	return s.reportRebuiltDeletion(q.String(), rows), ok
 }
 
 // ---------- Go-side specification helpers for the monitors ----------
@@ -1975,7 +1985,7 @@ func (s *c01Sys) adminFeeds(q c01Req, low uint64) (feeds [][]c01Row, hi uint64, 
 			}
 			rows = append(rows, s.projectRow(e))
 		}
-		feeds = append(feeds, s.normalizeRebuiltDeletion(q.String()+" (channel feed "+name+")", rows))
+		feeds = append(feeds, s.reportRebuiltDeletion(q.String()+" (channel feed "+name+")", rows))
 	}
 	return feeds, hi, true
 }
